@@ -73,6 +73,27 @@ def probe_values(real, n, rng):
     return out
 
 
+def placeholder_variants(v, depth=2):
+    """the value with `...` standing in for one member (substitution's "leave as declared"), also
+    between two kept members of a list"""
+    out = []
+    if isinstance(v, list):
+        for i in range(len(v)):
+            out.append(v[:i] + [...] + v[i + 1:])
+            if depth:
+                out += [v[:i] + [x] + v[i + 1:] for x in placeholder_variants(v[i], depth - 1)]
+        for i in range(1, len(v)):
+            out.append(v[:i] + [...] + v[i:])
+        if len(v) == 1:
+            out += [[v[0], ..., v[0]], [..., v[0]], [v[0], ...]]
+    elif isinstance(v, dict):
+        for k in v:
+            out.append({**v, k: ...})
+            if depth:
+                out += [{**v, k: x} for x in placeholder_variants(v[k], depth - 1)]
+    return out
+
+
 def compare(plain, wrapped, nvals, rng):
     import d42
     ev = {"repr_same": repr(plain) == repr(wrapped), "vals": [], "gens": [], "subs": [],
@@ -101,7 +122,11 @@ def compare(plain, wrapped, nvals, rng):
                 same = True       # clock / OS draws
         ev["gens"].append({"exc_w": exc_w, "exc_p": exc_p, "same_value": same,
                            "plain_accepts": (not exc_w) and ok_validate(plain, vw)})
-    for v in values[: (8 if nvals else 40)]:
+    sub_values = values[: (8 if nvals else 40)]
+    holes = []
+    for v in sub_values[:4]:
+        holes += placeholder_variants(v)
+    for v in sub_values + holes[: (12 if nvals else 60)]:
         rec = {"exc_w": "", "exc_p": "", "res_same": False, "repr_same": False}
         rp = rw = None
         try:
